@@ -287,7 +287,7 @@ class Prop(PropBase):
         specs = []
         for _ in range(3 if tier == "quick" else 40):
             fmt = rng.choice(["vdif", "vdif", "dada", "dada", "guppi", "stokes"])
-            s = {"fmt": fmt, "seed": rng.randrange(10**6), "rate_mhz": rng.choice([1, 2, 16, 400]), "t0_s": rng.choice([0, 0, 12345, 86399])}
+            s = {"fmt": fmt, "seed": rng.randrange(10**6), "rate_mhz": rng.choice([1, 2, 16, 400, 2.9296875, 0.1953125]), "t0_s": rng.choice([0, 0, 12345, 86399])}
             if fmt == "vdif":
                 s.update(complex=rng.random() < 0.5, bps=rng.choice([8, 8, 2]), a=rng.choice([1, 2]), b=rng.choice([1, 2, 4]), spf=rng.choice([32, 64]))
                 if s["bps"] == 2 and s["complex"] and s["b"] == 1:
@@ -337,6 +337,8 @@ class Prop(PropBase):
              "sigtype": "IntensitySignal", "squeeze": True},
             {"fmt": "guppi", "seed": sd + 5, "rate_mhz": 1, "t0_s": 0, "a": 2, "b": 4, "spf": 16, "fpf": 2, "nsamp": 64, "lsb": True, "pol": "CIRC",
              "obsfreq": 1400},
+            {"fmt": "guppi", "seed": sd + 11, "rate_mhz": 2.9296875, "t0_s": 0, "a": 2, "b": 4, "spf": 32, "fpf": 2, "nsamp": 128, "lsb": False,
+             "pol": "LIN", "obsfreq": 1400},
             {"fmt": "guppi", "seed": sd + 6, "rate_mhz": 16, "t0_s": 12345, "a": 2, "b": 2, "spf": 32, "fpf": 1, "nsamp": 96, "lsb": False,
              "pol": "LIN", "obsfreq": 344.1875},
             {"fmt": "stokes", "seed": sd + 7, "rate_mhz": 1, "t0_s": 0, "a": 4, "b": 8, "nsamp": 16, "lsb": True, "freq": 7000, "bw": 200},
@@ -598,7 +600,7 @@ class Prop(PropBase):
                             g1, g2 = dask.compute(z1.data, z2.data, scheduler="synchronous")
                             o["joint_same"] = [bool(np.array_equal(np.asarray(g1), e1)), bool(np.array_equal(np.asarray(g2), e2))]
                             diff = z1 - z2 if hasattr(z1, "__sub__") else None
-                            o["joint_diff_same"] = bool(np.array_equal(np.asarray((z1.data - z2.data).compute()), e1 - e2))
+                            o["joint_diff_same"] = bool(np.array_equal(np.asarray((z1.data - z2.data).compute(scheduler="synchronous")), e1 - e2))
                             o["distinct"] = bool(e1.shape == e2.shape and not np.array_equal(e1, e2))
                     elif op[0] == "threads":
                         reqs = op[1]
@@ -644,6 +646,8 @@ class Prop(PropBase):
                 except Warning as e:  # noqa
                     # a Warning raised as an exception is the warnings-filter race described above, not a reader result
                     o = {"warn_race": type(e).__name__}
+                    import time as _time
+                    _time.sleep(0.2)          # let worker threads of the aborted step finish before their events are drained
                 except Exception as e:  # noqa
                     o["err"] = "OutOfBoundsError" if type(e).__name__ == "OutOfBoundsError" else type(e).__name__
                     o["is_eof"] = isinstance(e, EOFError)
@@ -857,7 +861,7 @@ class Prop(PropBase):
         rate = info["file_rate_hz"] / (2 if mode == "real" else 1)
         if code["len"] != L:
             return f"len(reader) = {code['len']}, file encodes {L}"
-        if F(code["rate"]) != rate:
+        if not X.close(F(code["rate"]), rate, rtol=F(1, 2**50)):         # (a unit conversion may cost an ulp)
             return f"sample_rate {code['rate']} Hz, file encodes {rate} Hz"
         if abs(F(code["start"])) > F(1, 10**10) or abs(F(code["stop"]) - F(L) / rate) > F(1, 10**10):
             return "start_time/stop_time do not match the file"
@@ -887,7 +891,7 @@ class Prop(PropBase):
                 return f"{what}: {sig['shape'][0]} samples, requested {n}"
             if abs(F(sig["start"]) - F(o) / rate) > F(1, 10**10):
                 return f"{what}: start_time is {float(F(sig['start']))} s after the file start, time_at({o}) = {float(F(o) / rate)}"
-            if F(sig["rate"]) != rate:
+            if not X.close(F(sig["rate"]), rate, rtol=F(1, 2**50)):
                 return f"{what}: sample_rate {sig['rate']}"
             exp = expected(o, n)
             got = self._obs_vals(sig)
